@@ -186,9 +186,29 @@ def ref_rc4_ks(st, n):
     return out
 
 
+# published vectors (tests/test_chacha.py, tests/test_salsa20.py, tests/test_rc4.py): op line -> (required prefix, required suffix)
+KAT = {
+    'chacha.ks x00000000000000000000000000000000 x0000000000000000 8 0 2':
+        ('xe28a5fa4a67f8c5defed3e6fb7303486aa8427d31419a729572d777953491120b64ab8e72b8deb85cd6aea7cb6089a101824beeb08814a428aab1fa2c816081b;x8a26af448a1ba906368fd8c83831c18c', '19925f5d338e430d'),
+    'chacha.ks x00000000000000000000000000000000 x0000000000000000 12 0 2':
+        ('xe1047ba9476bf8ff312c01b4345a7d8ca5792b0ad467313f1dc412b5fdce3241', '8357991e784ea20f'),
+    'chacha.ks x01000000000000000000000000000000 x0000000000000000 20 0 1':
+        ('xae56060d04f5b597897ff2af1388dbceff5a2a4920335dc17a3cb1b1b10fbe70', '6be4449376ed7c42'),
+    'chacha.ks x00112233445566778899aabbccddeeffffeeddccbbaa99887766554433221100 x0f1e2d3c4b5a6978 20 0 1':
+        ('x9fadf409c00811d00431d67efbd88fba59218d5d6708b1d685863fabbb0e961e', 'a212e2167ccab931'),
+    'salsa.hash xd39f0d734c3752b70375de25bfbbea8831edb330016ab2dbafc7a6305610b3cf1ff0203f0f535da174933071ee37cc244fc9eb4f03519c2fcb1af4f358766836':
+        ('x6d2ab2', '1330ca'),
+    'rc4.seq x4b6579 | e x506c61696e74657874': ('xbbf316e8d940af0ad3;', ''),
+    'rc4.seq x536563726574 | e x41747461636b206174206461776e': ('x45a01f645fc35b383552544b9bf5;', ''),
+}
+
+
 def check_impl(line, res):
     t = line.split(); op, a = t[0], t[1:]
     if op.startswith('idx.'): return _idx.check_impl(line, res)
+    if line in KAT:
+        pre, suf = KAT[line]
+        if not (res.startswith(pre) and res.endswith(suf)): return op + ': published test vector not reproduced'
     bad = lambda why: '%s: %s' % (op, why)
     fam, _, o = op.partition('.')
     if fam in ('salsa', 'chacha'):
@@ -327,7 +347,7 @@ def cases(tier, rng):
         for ksz in (16, 32):
             for rounds in range(2, 21, 2):
                 key = rb(rng, ksz); nonce = rb(rng, 8)
-                Ls = BOUND if not quick else [0, 1, 63, 64, 65, 128, 130] + [rng.randrange(0, 193)]
+                Ls = BOUND + ([] if quick else [rng.randrange(0, 260) for _ in range(6)])
                 for L in Ls:
                     yield cline(fam, 'enc', key, nonce, rounds, 0, rb(rng, L)), '%s.enc.k%d.r%d' % (fam, ksz, rounds)
                 yield cline(fam, 'ks', key, nonce, rounds, 0, 2), fam + '.ks'
@@ -403,7 +423,6 @@ def cases(tier, rng):
                 yield '%s.%s %s' % (fam, o, il(wvec(rng, bad_n))), fam + '.' + o + '.malformed'
     # -- 9. RC4: every key length 1..256; one-shot, splits with empty pieces, keystream(n) interleaved, dec
     for kl in range(1, 257):
-        if quick and kl > 40 and kl % 8 not in (0, 1) and kl < 250: continue
         key = rb(rng, kl)
         L = rng.randrange(0, 40 if quick else 200)
         m = rb(rng, L)
